@@ -16,7 +16,7 @@ GEOM_KEYS = ("paperw", "paperh", "margl", "margr", "margt", "margb", "headery", 
 PRIMS = ("strat", "n", "h", "nlev", "chg", "schg", "div", "newpage", "pbrow", "pbhdr", "nrow", "hdr",
          "foot", "src", "ptitle", "pfoot", "psrc", "title", "subline",
          "font", "size", "paper", "pghf", "pagefirst", "pagelast", "bodyfirst", "bodylast", "utop", "ubot",
-         "ndata", "gpos", "relwk", "hdrw", "ushape", "dup")
+         "ndata", "gpos", "relwk", "hdrw", "ushape", "dup", "hdrtuple")
 
 PAPERS = {
     "letter": {},
@@ -29,7 +29,7 @@ PAPERS = {
 }
 PRIM_DEFAULTS = {"font": 1, "size": 9, "paper": "letter", "pghf": 0, "pagefirst": "double", "pagelast": "double",
                  "bodyfirst": "single", "bodylast": "single", "utop": "", "ubot": "",
-                 "ndata": 2, "gpos": "first", "relwk": "equal", "hdrw": False, "ushape": "scalar", "dup": False}
+                 "ndata": 2, "gpos": "first", "relwk": "equal", "hdrw": False, "ushape": "scalar", "dup": False, "hdrtuple": False}
 
 RELW = {"equal": lambda j: 1.0, "asc": lambda j: 1.0 + 0.5 * j, "mixed": lambda j: [0.2, 10.0, 1.3, 2.7, 0.9, 4.4][j % 6],
         "tenths": lambda j: [1.7, 0.3, 2.9, 5.1, 0.7, 3.3][j % 6]}
@@ -253,6 +253,8 @@ def build(c, o, nrows=None):
             return [[style if j % 2 == 0 else "" for j in range(len(cols))]]
         if o.get("ushape") == "matrix" and n > 0:
             return [[style if (r + j) % 2 == 0 else "" for j in range(len(cols))] for r in range(n)]
+        if o.get("ushape") == "rowpat":
+            return (style, "", "")          # a tuple: one entry per ROW, recycled down the table
         return style
     if o["utop"]:
         body_kw["border_top"] = umatrix(o["utop"])
@@ -300,6 +302,8 @@ def build(c, o, nrows=None):
         kw["rtf_page_header"] = rtf.RTFPageHeader(text="~PH~")
     if o["pgftr"]:
         kw["rtf_page_footer"] = rtf.RTFPageFooter(text="~PF~")
+    if c.get("hdrtuple") and isinstance(kw.get("rtf_column_header"), list) and kw["rtf_column_header"]:
+        kw["rtf_column_header"] = tuple(kw["rtf_column_header"])
     doc = rtf.RTFDocument(**kw)
     def expanded(style):
         m = umatrix(style) if style else ""
@@ -308,6 +312,8 @@ def build(c, o, nrows=None):
         for r in range(n):
             if isinstance(m, str):
                 out.append([m for _ in keep_idx])
+            elif isinstance(m, tuple):
+                out.append([m[r % len(m)] for _ in keep_idx])
             else:
                 row = m[r % len(m)]
                 out.append([row[j % len(row)] for j in keep_idx])
@@ -315,7 +321,8 @@ def build(c, o, nrows=None):
     info = {"cols": cols, "kept": kept, "relw_kept": relw_kept, "page": page, "data": data,
             "colw_total": colw_total, "utopm": expanded(o["utop"]), "ubotm": expanded(o["ubot"]),
             # first row of border_top as the caller wrote it (original column positions)
-            "utop0raw": (list(umatrix(o["utop"])[0]) if o["utop"] and not isinstance(umatrix(o["utop"]), str) else [])}
+            "utop0raw": ([] if not o["utop"] or isinstance(umatrix(o["utop"]), str) else
+                         [umatrix(o["utop"])[0]] if isinstance(umatrix(o["utop"]), tuple) else list(umatrix(o["utop"])[0]))}
     return doc, info
 
 
